@@ -24,6 +24,11 @@ ASSUMPTIONS = ["end-to-end agreement of the real compiler+VM with the reference 
 FUEL = 1500
 
 KIND_PATTERNS = [
+    # string formatting / string methods (interpolation.rs, dot_format.rs, methods.rs, funcs/other.rs)
+    (r"Too many arguments for format string|Not enough arguments for format string", "TypeErr"),
+    (r"Not enough parameters in format string", "IndexErr"),
+    (r"Incomplete format|Unsupported format character|in format string|inside replacement field|Empty separator|"
+     r"is not a single character|chr\(\) parameter", "ValueErr"),
     (r"Index .* is out of bound|out of bound", "IndexErr"),
     (r"[Kk]ey .*not found|Key .* was not found", "KeyErr"),
     (r"division by zero|Modulo by zero|by zero", "ZeroDiv"),
@@ -46,27 +51,51 @@ def impl_kind(msg):
     return "?"
 
 
+def _bytes_text(codes):
+    return bytes(codes).decode("utf-8", "replace")
+
+
 def obs_text(o):
-    """Coq `obs` term (parsed) -> the harness' structural encoding."""
-    if o == "ONone":
+    """Coq `eobs` term (parsed; strings travel as lists of byte codes, see MODEL_PRELUDE) -> the harness' structural encoding."""
+    if o == "XNone":
         return "None"
     if isinstance(o, list):
         h = o[0]
-        if h == "OBool":
+        if h == "XBool":
             return "True" if o[1] == "true" else "False"
-        if h == "OInt":
+        if h == "XInt":
             return "i%d" % o[1]
-        if h == "OStr":
-            return json.dumps(o[1][1], ensure_ascii=False)
-        if h == "OList":
+        if h == "XStr":
+            return json.dumps(_bytes_text(o[1]), ensure_ascii=False)
+        if h == "XList":
             return "[" + ",".join(obs_text(x) for x in o[1]) + "]"
-        if h == "OTuple":
+        if h == "XTuple":
             return "(" + ",".join(obs_text(x) for x in o[1]) + ")"
-        if h == "ODict":
+        if h == "XDict":
             return "{" + ",".join(obs_text(k) + ":" + obs_text(v) for (k, v) in o[1]) + "}"
-        if h == "OOther":
-            return "<%s>" % o[1][1]
+        if h == "XOther":
+            return "<%s>" % _bytes_text(o[1])
     return "<?%r>" % (o,)
+
+
+# strings are printed as byte-code lists so that no character of a transcript can confuse the parser of coqc's output
+MODEL_PRELUDE = """From Coq Require Import ZArith NArith String List Ascii.
+From SV Require Import Core.Syntax Core.Values Core.Sem.
+Import ListNotations.
+Open Scope string_scope.
+Open Scope Z_scope.
+Inductive eobs := XNone | XBool (b : bool) | XInt (z : Z) | XStr (l : list N) | XList (l : list eobs) | XTuple (l : list eobs)
+| XDict (l : list (eobs * eobs)) | XOther (l : list N).
+Definition codes (x : string) : list N := map N_of_ascii (list_ascii_of_string x).
+Fixpoint enc (o : obs) : eobs :=
+  match o with
+  | ONone => XNone | OBool b => XBool b | OInt z => XInt z | OStr x => XStr (codes x)
+  | OList l => XList (map enc l) | OTuple l => XTuple (map enc l)
+  | ODict l => XDict (map (fun kv => (enc (fst kv), enc (snd kv))) l)
+  | OOther t => XOther (codes t)
+  end.
+Definition run_enc (fuel : nat) (prog : list stmt) := let r := run_program fuel prog in (map enc (fst r), snd r).
+"""
 
 
 def model_outcome(o):
@@ -87,10 +116,9 @@ def run_model(ctx, items, nshard=None, timeout=400, depth=0):
         idx = list(range(s, len(items), nshard))
         if not idx:
             continue
-        text = ("From Coq Require Import ZArith String List.\nFrom SV Require Import Core.Syntax Core.Values Core.Sem.\n"
-                "Import ListNotations.\nOpen Scope string_scope.\nOpen Scope Z_scope.\n")
+        text = MODEL_PRELUDE
         for i in idx:
-            text += "Eval vm_compute in (run_program %d %s).\n" % (FUEL, items[i])
+            text += "Eval vm_compute in (run_enc %d %s).\n" % (FUEL, items[i])
         files.append(("prog_%d_%d" % (depth, s), text))
         parts.append(idx)
     outs = sv.coq_eval_files(ctx, files, timeout=timeout)
